@@ -98,8 +98,9 @@ def _stmts(blk, ind, p, glob, loops=(), used=None):
     return o
 
 
-def render(cases, wrapped=True):
-    """One Ego source file running the given cases one after the other.
+def render(cases, wrapped=True, lang="ego"):
+    """One Ego source file running the given cases one after the other (lang="go": the same text as a Go program, for
+    the cases that are legal Go -- no try/catch, no runtime error -- used to cross-check the specification itself).
     wrapped: main calls each case through a function that reports how the entry function ended:
     END (returned), ERR (a runtime error left it: caught by the wrapper's try), PANIC=<v> (a panic left it: stopped by
     the wrapper's deferred recover) -- so a case cannot end the process and many cases share one.
@@ -116,17 +117,21 @@ def render(cases, wrapped=True):
         if wrapped:
             body += ["func %srun() {" % p,
                      "\tdefer func() {", "\t\tr := recover()", "\t\tif r != nil {",
-                     '\t\t\tfmt.Printf("PANIC=%v\\n", r)', "\t\t}", "\t}()",
-                     "\ttry {", "\t\t%sf1()" % p, '\t\tfmt.Printf("END\\n")',
-                     "\t} catch {", '\t\tfmt.Printf("ERR\\n")', "\t}", "}\n"]
+                     '\t\t\tfmt.Printf("PANIC=%v\\n", r)', "\t\t}", "\t}()"]
+            if lang == "go":
+                body += ["\t%sf1()" % p, '\tfmt.Printf("END\\n")', "}\n"]
+            else:
+                body += ["\ttry {", "\t\t%sf1()" % p, '\t\tfmt.Printf("END\\n")',
+                         "\t} catch {", '\t\tfmt.Printf("ERR\\n")', "\t}", "}\n"]
             main.append("\t%srun()" % p)
         else:
             main.append("\t%sf1()" % p)
             main.append('\tfmt.Printf("END\\n")')
-    src = ["package main", "@extensions true", 'import "fmt"', ""]
+    src = ["package main", "@extensions true" if lang == "ego" else "", 'import "fmt"', ""]
     src += glob + [""]
-    src += ["func boom() {", "\tz := 0", "\tz = 1 / z", "}", "",
-            "func note(n int) {", '\tfmt.Printf("D%d\\n", n)', "}", ""]
+    if lang == "ego":
+        src += ["func boom() {", "\tz := 0", "\tz = 1 / z", "}", ""]
+    src += ["func note(n int) {", '\tfmt.Printf("D%d\\n", n)', "}", ""]
     src += body
     src += ["func main() {"] + main + ["}", ""]
     return "\n".join(src)
@@ -173,6 +178,11 @@ def observe(rc, stdout, stderr, ncases):
     while len(segs) < ncases:
         segs.append({"out": [], "status": "notrun", "pv": ""})
     return segs
+
+
+def go_legal(case):
+    """the case uses only what Go has too (defer, panic/recover, loops, labels, calls)"""
+    return not any(t in ("try", "catch", "err", "err1") for t in case["toks"])
 
 
 def masked(lines, mask):
